@@ -106,8 +106,10 @@ def Machine.nexts {σ α : Type} (m : Machine σ α) : Nat → σ → List (Res 
   | n + 1, s => (m.next s false).1 :: m.nexts n (m.next s false).2
 
 /-- the first `n` elements of the infinite stream `l ++ Done ++ Done ++ …` -/
-def stream {α : Type} (l : List (Res α)) (n : Nat) : List (Res α) :=
-  (l ++ List.replicate n Res.done).take n
+def stream {α : Type} : List (Res α) → Nat → List (Res α)
+  | _, 0 => []
+  | [], n + 1 => Res.done :: stream [] n
+  | r :: l, n + 1 => r :: stream l n
 
 /-! ## StaticIterator -/
 
